@@ -159,9 +159,14 @@ def future_resolution(chk: Check) -> None:
     # assignments of _future: constructor, load, and the replacement in on_except
     from ..rules import attr_writers
     for f, node in attr_writers(prog, '_future'):
-        ok = f.qualname in ('processes.Process.__init__', 'processes.Process.load_instance_state', 'processes.Process.on_except')
-        chk.ob('OWN-process-future', f, ok, 'the process future is replaced only at construction / load / in on_except', node=node, kind='replacer',
-               expr='_future store')
+        ok = f.qualname in ('processes.Process.__init__', 'processes.Process.load_instance_state')
+        if not ok and f.name in allowed and f.cls is not None:
+            # a terminal-entry hook may replace a future that is ALREADY done (finished before excepting, cancelled before the kill)
+            ffh = chk.ctx.facts.analyse(f)
+            stmts = [n for n in ffh.cfg.nodes if n.kind == 'stmt' and any(x is node for x in ast.walk(n.ast))]
+            ok = bool(stmts) and all(('T', 'self._future.done()') in ffh.at(n) for n in stmts)
+        chk.ob('OWN-process-future', f, ok, 'the process future is replaced only at construction / load, or by a terminal-entry hook when the old one is already done',
+               node=node, kind='replacer', expr='_future store')
 
     def exactly_once(f: FuncInfo, what: str, arg_ok) -> None:
         cfg = cfg_of(f)
